@@ -29,6 +29,12 @@ package memtable
 //@   ensures[C08] maxSeqNum >= old(maxSeqNum)
 //@   ensures[C08] entry.SequenceNumber <= opts.MaxSequenceNumber ==> maxSeqNum >= entry.SequenceNumber
 
+// C10: rebuilding the memtables fails only if the log replay saw damage or the handler failed, never because a log
+// merely ends early (walDamage / walHandlerErrs: ghost counters of package wal).
+//@ func RecoverFromWAL
+//@   ensures[C10] walDamage >= old(walDamage) && walHandlerErrs >= old(walHandlerErrs)
+//@   ensures[C10] err != nil ==> walDamage > old(walDamage) || walHandlerErrs > old(walHandlerErrs)
+
 // ---- C01/C18: abstract view of one memtable = the view of its skiplist: has[k] = some entry with key k exists;
 // del[k] = the entry with the highest sequence number (ties: the later insert) is a deletion marker; val[k] = that
 // entry's value bytes.  SkipList.Find is tied to this view by its contract (C18).
